@@ -60,6 +60,8 @@ func TestPreBuildUnshardPlanMentionsShardTable(t *testing.T) {
 		{"insert tbl_ks values (1)", false},
 		{"update TBL_KS set a = 1", false},
 		{"delete a from tbl_unshard a join tbl_ks b on 1=1", false},
+		{"select * from tbl_unshard,\u3000tbl_ks", false},
+		{"select * from tbl_unshard,\u00a0TBL_KS where id = 1", false},
 	}
 	for _, tt := range tests {
 		se, err := newDefaultSessionExecutor(nil)
